@@ -56,7 +56,7 @@ class UnitW(Unit):
         out.spec(HEAD)
         self._trusted = []
         from .r import prelude
-        self._trusted += prelude(out, ['ax-display-ref', 'stdspec-as-deref'])
+        self._trusted += prelude(out, ['ax-display-ref', 'stdspec-as-deref', 'stdspec-bytelen', 'stdspec-as-bytes'])
         self._trusted += sections(out, 'dep_io.rs', ['io-write-ghost'])
         self._trusted += sections(out, 'dep_misc.rs', ['inflector', 'url', 'roxmltree-error'])
         out.spec(MOD_HEAD)
@@ -138,14 +138,7 @@ class UnitW(Unit):
             splice_fn(out, fn, SRC + rel, fid, inherits=['no-false-success'], probe=probe, sink=sink_name(fn), **kw)
             close_container(out, im, SRC + rel)
 
-        # ---- structures/restrictions.rs, helpers.rs, file_header.rs
-        impl('model/structures/restrictions.rs', r'< W > WriteXml < W > for Restrictions where W : io :: Write', 'restrictions::Restrictions::write_xml')
-        free('model/helpers.rs', 'write_check_restrictions_footer', 'helpers::write_check_restrictions_footer')
-        free('model/helpers.rs', 'write_check_restrictions_header', 'helpers::write_check_restrictions_header')
-        impl('model/helpers.rs', r'< W > WriteXml < W > for Helpers where W : io :: Write', 'helpers::Helpers::write_xml',
-             inserts=[STATIC('const HELPERS: &')])
-        self.emit_file_header(out, G, probe)
-        # ---- field.rs
+        # ---- helper (non-writer) functions the writers call
         for name in ('rename_keywords', 'as_field_name'):
             fn = G.top('model/field.rs', 'fn', name)
             splice_fn(out, fn, SRC + 'model/field.rs', f'field::{name}', probe=probe)
@@ -155,8 +148,6 @@ class UnitW(Unit):
             if c.kind == 'fn':
                 splice_fn(out, c, SRC + 'model/field.rs', f'field::RustFieldType::{c.name}', probe=probe)
         close_container(out, fim, SRC + 'model/field.rs')
-        impl('model/field.rs', r'< W > WriteXml < W > for Field where W : std :: io :: Write', 'field::Field::write_xml')
-        # ---- structures/mod.rs, structures/writer.rs
         fn = G.top('model/structures/mod.rs', 'fn', 'xml_name_to_rust_name')
         splice_fn(out, fn, SRC + 'model/structures/mod.rs', 'structures::xml_name_to_rust_name', probe=probe)
         rim = G.top('model/structures/mod.rs', 'impl', 'RustType')
@@ -164,42 +155,102 @@ class UnitW(Unit):
         splice_fn(out, child(rim, 'fn', 'xml_name'), SRC + 'model/structures/mod.rs', 'structures::RustType::xml_name',
                   ensures=[('ignore-has-no-name', '(self is Ignore) <==> res is None')], origin={'ignore-has-no-name': 'helper'}, probe=probe)
         close_container(out, rim, SRC + 'model/structures/mod.rs')
-        wr = 'model/structures/writer.rs'
-        seg = "rust_type.to_string().split(':').next_back()"
-        free(wr, 'write_type_alias', 'structures::writer::write_type_alias')
-        free(wr, 'write_simple_type', 'structures::writer::write_simple_type',
-             opaque=[G.opaque(out, seg, "Option<&'static str>")], **self.comment_loop(out, G, wr, 'write_simple_type'))
-        free(wr, 'write_complex_type', 'structures::writer::write_complex_type',
-             **self.comment_loop(out, G, wr, 'write_complex_type'))
-        impl(wr, r'< W > WriteXml < W > for RustType where W : io :: Write', 'structures::writer::RustType::write_xml',
-             pre=lambda: self._stash(G.opaque(out, seg, "Option<&'static str>")), opaque_from_stash=True)
+        self.emit_file_header_consts(out)
 
-        # ---- node.rs, doc.rs
-        impl('model/node.rs', r'< W > WriteXml < W > for RustNode where W : io :: Write', 'node::RustNode::write_xml',
-             pre=lambda: self._stash(G.opaque(out, 'self.rust_type == RustType::Ignore', 'bool')), opaque_from_stash=True)
-        # ---- soap/service.rs
-        RESP = 'operation .output .as_ref() .map(|_| format!("{operation_name}OutputEnvelope"))'
-        free('model/soap/service.rs', 'write_async_soap_call', 'soap::service::write_async_soap_call',
-             opaque=[G.opaque(out, RESP, 'Option<String>', flex=True)])
+        # ---- the writers: DISCOVERED by signature (every function of these files that takes the sink `&mut W`), so that a
+        # refactor which moves writing code into a new function is still covered
         OPS = "Vec<(&'static XmlName, &'static SoapOperation)>"
-        impl('model/soap/service.rs', r'< W > WriteXml < W > for SoapService where W : io :: Write', 'soap::service::SoapService::write_xml',
-             pre=lambda: self._stash(G.opaque(out, '&self.binding.operations', OPS)), opaque_from_stash=True)
-        # ---- soap/binding/writer.rs (its signatures say `super::SoapOperation`, hence the nested module)
-        bw = 'model/soap/binding/writer.rs'
-        o1 = G.opaque(out, RESP, 'Option<String>', flex=True)
-        o2 = G.opaque(out, 'xmlns .iter() .map(|(k, v)| format!("\\"{k}\\" = \\"{v}\\"")) .collect::<Vec<String>>() .join(", ")', 'String', flex=True)
-        o3 = G.opaque(out, '&self.operations', OPS)
-        out.spec('    pub mod binding_writer {\n        use super::*;\n        broadcast use crate::ax::display_ref;')
-        free(bw, 'write_soap_action', 'soap::binding::writer::write_soap_action', opaque=[o1])
-        free(bw, 'write_soap_operation', 'soap::binding::writer::write_soap_operation', opaque=[o2])
-        impl(bw, r'< W > WriteXml < W > for SoapBinding where W : io :: Write', 'soap::binding::writer::SoapBinding::write_xml',
-             opaque=[o3])
-        out.spec('    }')
         NODES = "Vec<&'static Rc<RustNode>>"
-        d1 = G.opaque(out, 'self .nodes .iter() .filter(|n| n.in_namespace.as_deref() == Some(namespace))', NODES, flex=True)
-        d2 = G.opaque(out, 'self.nodes.iter().filter(|n| n.in_namespace.is_none())', NODES, flex=True)
-        impl('model/doc.rs', r'< W > WriteXml < W > for RustDocument where W : std :: io :: Write', 'doc::RustDocument::write_xml',
-             opaque=[d1, d2])
+        # pure sub-expressions Verus cannot process, wherever they occur in a writer: (anchor, type, flex)
+        PATTERNS = [
+            ("rust_type.to_string().split(':').next_back()", "Option<&'static str>", False),
+            ('self.rust_type == RustType::Ignore', 'bool', False),
+            ('operation .output .as_ref() .map(|_| format!("{operation_name}OutputEnvelope"))', 'Option<String>', True),
+            ('xmlns .iter() .map(|(k, v)| format!("\\"{k}\\" = \\"{v}\\"")) .collect::<Vec<String>>() .join(", ")', 'String', True),
+            ('&self.binding.operations', OPS, False),
+            ('&self.operations', OPS, False),
+            ('self .nodes .iter() .filter(|n| n.in_namespace.as_deref() == Some(namespace))', NODES, True),
+            ('self.nodes.iter().filter(|n| n.in_namespace.is_none())', NODES, True),
+        ]
+
+        def flexrx(pat):
+            return re.compile(r'\s*'.join(re.escape(x) for x in pat.split(' ')))
+
+        def special(fn):
+            """opaque / for_each / lifetime splices that apply to this function, by pattern presence"""
+            kw = {'opaque': [], 'inserts': [], 'foreach': []}
+            body = fn.body
+            for pat, ty, flex in PATTERNS:
+                n = len(flexrx(pat).findall(body)) if flex else body.count(pat)
+                for k in range(n):
+                    kw['opaque'].append(G.opaque(out, pat, ty, flex=flex, occurrence=(k if n > 1 else None)))
+            if "comment.split('\\n').for_each(" in body:
+                kw['foreach'].append(G.opaque(out, "comment.split('\\n').for_each(", "Vec<&'static str>"))
+            elif "in comment.split('\\n')" in body:
+                kw['opaque'].append(G.opaque(out, "comment.split('\\n')", "Vec<&'static str>"))
+            for m_ in re.finditer(r'const \w+: &(?!\s*\')', body):
+                kw['inserts'].append(STATIC(m_.group(0)))
+            return kw
+
+        def is_sink_fn(fn):
+            return fn.kind == 'fn' and fn.open is not None and re.search(r'&\s*mut\s+W\b', fn.header) is not None
+
+        def fid_of(rel, owner, name):
+            base = rel[len('model/'):-3].replace('/', '::') if rel.startswith('model/') else rel[:-3]
+            return f'{base}::{owner + "::" if owner else ""}{name}'
+
+        FILES = ['model/structures/restrictions.rs', 'model/helpers.rs', 'model/file_header.rs', 'model/field.rs', 'model/structures/writer.rs',
+                 'model/node.rs', 'model/soap/service.rs', 'model/soap/binding/writer.rs', 'model/doc.rs']
+        self.discovered = []
+        for rel in FILES:
+            nested = rel == 'model/soap/binding/writer.rs'     # its signatures say `super::SoapOperation`
+            items = [it for it in G.items(rel) if it.kind in ('fn', 'impl')]
+            plan = []
+            for it in items:
+                if it.kind == 'fn' and is_sink_fn(it):
+                    plan.append(('free', it, [it]))
+                elif it.kind == 'impl':
+                    fns = [c for c in it.children if is_sink_fn(c)]
+                    if fns:
+                        plan.append(('impl', it, fns))
+            specials = {id(fn): special(fn) for _, _, fns in plan for fn in fns}      # opaque declarations are emitted here, before the items
+            if nested and plan:
+                out.spec('    pub mod binding_writer {\n        use super::*;\n        broadcast use crate::ax::display_ref;')
+            for kind, it, fns in plan:
+                if kind == 'free':
+                    fn = fns[0]
+                    w = sink_name(fn)
+                    kw = specials[id(fn)]
+                    auto_loops(fn, w, kw)
+                    fid = fid_of(rel, '', fn.name)
+                    splice_fn(out, fn, SRC + rel, fid, requires=[('sink-clean', PRE.format(w=w))],
+                              ensures=[('no-false-success', POST.format(w=w))], origin={'no-false-success': 'property'},
+                              probe=probe, sink=w, **kw)
+                    self.discovered.append(fid)
+                else:
+                    is_trait_impl = re.search(r'WriteXml\s*<\s*W\s*>\s*for\s+(\w+)', it.name)
+                    owner = is_trait_impl.group(1) if is_trait_impl else re.sub(r'\W+', '_', it.name).strip('_')
+                    open_container(out, it, SRC + rel)
+                    for fn in fns:
+                        w = sink_name(fn)
+                        kw = specials[id(fn)]
+                        auto_loops(fn, w, kw)
+                        fid = fid_of(rel, owner, fn.name)
+                        if is_trait_impl and fn.name == 'write_xml':
+                            splice_fn(out, fn, SRC + rel, fid, inherits=['no-false-success'], probe=probe, sink=w, **kw)
+                        else:
+                            splice_fn(out, fn, SRC + rel, fid, requires=[('sink-clean', PRE.format(w=w))],
+                                      ensures=[('no-false-success', POST.format(w=w))], origin={'no-false-success': 'property'},
+                                      probe=probe, sink=w, **kw)
+                        self.discovered.append(fid)
+                    close_container(out, it, SRC + rel)
+            if nested and plan:
+                out.spec('    }')
+        if len(self.discovered) < 15:
+            raise AnchorLost(f'only {len(self.discovered)} writer functions discovered (expected the ~23 of the pinned tree)')
+
+    def emit_file_header_consts(self, out):
+        out.dropped.append('model/file_header.rs: consts PKG_VERSION, VERSION (only used inside the concatc! invocation, which is stood in)')
 
     def _stash(self, d):
         self._stashed = [d]
